@@ -25,6 +25,8 @@ INNERS = [
     ['ddict', {'keys': [2, 'a'], 'factory': 'list'}, ['L', 'L']],
     ['cg', None, [['list', None, ['L']], 'L']],
     ['tuple', None, [['none', None, []], 'L']],
+    ['dict', {'keys': ['v', 'aux']}, ['L', ['tuple', None, [['none', None, []], ['none', None, []]]]]],
+    ['list', None, [['list', None, [['tuple', None, []]]], 'L']],
 ]
 EMPTIES = [['tuple', None, []], ['none', None, []], ['dict', {'keys': []}, []], ['list', None, [['tuple', None, []]]]]
 
@@ -120,25 +122,34 @@ def check(ctx, otree, leaves0, odsl, cfg):  # noqa: C901, PLR0912, PLR0915
                 if why:
                     ctx.violation(f'transpose_map-result:{variant}', f'{PROP}:transpose_map-result', case,
                                   f'{why}: {r4[1]!r} vs {want4!r}')
-        # varying inner shape -> ValueError
+        # varying inner shape -> ValueError (also when the difference sits inside a LEAFLESS part of the inner shape)
         if m >= 2:
-            k = [0]
+            odd_dsls = [['list', None, ['L', 'L', 'L', ['tuple', None, ['L']]]]]
+            for path in gen.node_paths(idsl):
+                node = gen.get_at(idsl, path)
+                if node != 'L' and node[0] in ('none', 'tuple', 'list') and not node[2] and path:
+                    odd_dsls.append(gen.replace_at(idsl, path, 'L'))
+                    odd_dsls.append(gen.replace_at(idsl, path, ['deque', {'maxlen': None}, []]))
+                    break
+            for odd_dsl in odd_dsls:
+                k = [0]
 
-            def g(x):
-                k[0] += 1
-                if k[0] == m:
-                    return [un.Leaf(0), un.Leaf(1), un.Leaf(2), (un.Leaf(3),)]
-                return gen.build(idsl, U)[0]
+                def g(x, odd_dsl=odd_dsl, k=k):
+                    k[0] += 1
+                    if k[0] == m:
+                        return gen.build(odd_dsl, U)[0]
+                    return gen.build(idsl, U)[0]
 
-            ctx.count()
-            r5 = outcome_of(lambda: optree.tree_transpose_map(g, otree, **kw))
-            try:
-                ref_flatten_up_to(iflat.desc, [un.Leaf(0), un.Leaf(1), un.Leaf(2), (un.Leaf(3),)], U, iflat.namespace)
-                odd_matches = True
-            except Mismatch:
-                odd_matches = False
-            if r5 != ('exc', 'ValueError') and not odd_matches:
-                ctx.violation('transpose_map-varying-shape', f'{PROP}:transpose_map-varying-shape', case, repr(r5)[:300])
+                ctx.count()
+                r5 = outcome_of(lambda g=g: optree.tree_transpose_map(g, otree, **kw))
+                try:
+                    ref_flatten_up_to(iflat.desc, gen.build(odd_dsl, U)[0], U, iflat.namespace)
+                    odd_matches = True
+                except Mismatch:
+                    odd_matches = False
+                if r5 != ('exc', 'ValueError') and not odd_matches:
+                    ctx.violation('transpose_map-varying-shape', f'{PROP}:transpose_map-varying-shape',
+                                  dict(case, odd=odd_dsl), repr(r5)[:300])
     # empty inner structures
     if m > 0:
         for edsl in EMPTIES:
